@@ -12,7 +12,7 @@ OV == {"x", "y", "z"}
 Ops == [op : {"new", "inc", "add", "total", "twice", "readn", "writen", "opn", "pushitems", "bumpvia", "setb", "inlist", "unwrap_reassign",
               "label", "tagop", "subn", "divn", "dec", "fork_inc"}, v : OV]
        \cup [op : {"alias", "fork", "me", "is", "adopt", "read_op_inc", "share", "pick_inc"}, v : OV, w : OV]
-       \cup [op : {"pair_bump_a", "pair_read_b", "pair_b_inc", "outside", "finc", "ftotal", "fnew", "ffork", "localclass"}]
+       \cup [op : {"pair_bump_a", "pair_read_b", "pair_b_inc", "outside", "finc", "ftotal", "fnew", "ffork", "localclass", "localclass2"}]
 
 VARIABLE hist
 Init == hist = <<>>
@@ -72,7 +72,16 @@ LocalClassFn ==
            ctor |-> <<[ps |-> <<P("q0", "int")>>, b |-> <<SetSelf("q", V("q0"))>>]>>,
            methods |-> <<Method("twice", <<>>, "int", <<Ret(Bin("*", SelfF("q"), I(2)))>>)>>],
           Let("lo", New("Local", <<V("s")>>)), Ret(MCall(V("lo"), "twice", <<>>))>>))
-Prologue == <<[k |-> "import", form |-> "names", path |-> "lib", names |-> <<"mk">>], LocalClassFn,
+(* two more functions, each declaring a class of the same name `Local` with other fields and other behaviour: every function *)
+(* uses its own class, whichever ran before                                                                                  *)
+LocalClassFn2 ==
+    Let("lcg", Fn("lcg", <<P("s", "int")>>, "int",
+        <<[k |-> "class", n |-> "Local", export |-> FALSE, fields |-> <<Field("q", "int"), Field("r", "int")>>,
+           ctor |-> <<[ps |-> <<P("q0", "int")>>, b |-> <<SetSelf("q", V("q0")), SetSelf("r", I(100))>>]>>,
+           methods |-> <<Method("twice", <<>>, "int", <<Ret(Bin("+", SelfF("q"), SelfF("r")))>>),
+                         Method("again", <<>>, "Self", <<Ret(New("Self", <<Bin("+", SelfF("q"), I(1))>>))>>)>>],
+          Let("lo", New("Local", <<V("s")>>)), Let("l2", MCall(V("lo"), "again", <<>>)), Ret(MCall(V("l2"), "twice", <<>>))>>))
+Prologue == <<[k |-> "import", form |-> "names", path |-> "lib", names |-> <<"mk">>], LocalClassFn, LocalClassFn2,
               Let("made", I(0)), Counter, Pair,
               Let("x", New("Counter", <<I(1)>>)), Let("f", Call(V("mk"), <<I(3)>>)),
               Let("y", New("Counter", <<I(2)>>)), Let("z", V("x")),
@@ -126,6 +135,7 @@ Stmts(o, k) ==
       [] o.op = "tagop" -> <<Assign(Fld(V(o.v), "tag"), "+", S("o" \o ToString(k)))>>
       [] o.op = "share" -> <<ExprS(MCall(V(o.v), "share", <<V(o.w)>>)), Print(Bin("is", Fld(V(o.v), "items"), Fld(V(o.w), "items")))>>
       [] o.op = "ffork" -> <<Let("f", MCall(V("f"), "fork", <<>>)), Print(MCall(V("f"), "inc", <<>>)), Print(MCall(V("f"), "total", <<>>))>>
+      [] o.op = "localclass2" -> <<Print(Call(V("lcg"), <<I(k)>>)), Print(Call(V("lcf"), <<I(k)>>)), Print(Call(V("lcg"), <<I(k + 1)>>))>>
       [] o.op = "localclass" -> <<Print(Call(V("lcf"), <<I(k)>>)), Print(Call(V("lcf"), <<I(k + 1)>>))>>
       [] o.op = "finc" -> <<Print(MCall(V("f"), "inc", <<>>))>>
       [] o.op = "ftotal" -> <<Print(MCall(V("f"), "total", <<>>))>>
